@@ -100,7 +100,9 @@ var messages = []string{"", "bad value", "值不对", "值 bad", "x", "字", "a=
 	// non-ASCII without any CJK ideograph: the English label
 	"can’t be empty", "Größe ungültig", "ошибка", "かな", "€5…",
 	// formatting-verb look-alikes
-	"100% sure", "不能超过100%", "%d items", "%", "%s%v%[1]d", "50%!"}
+	"100% sure", "不能超过100%", "%d items", "%", "%s%v%[1]d", "50%!",
+	// messages that mention a label word: the explanation starts after the clause's own (first) label
+	"see explain: in the docs", "格式见 说明: 第三章", "请看 explain: 文档", "read the explain:", "x explain: y 说明: z"}
 
 func withMsg(rule, msg string) string {
 	if msg == "" {
@@ -154,7 +156,8 @@ func run(c *runner.Ctx) {
 			rules := withMsg(rc.rule, m)
 			cars := []carrier.Kind{carrier.StructRM}
 			if carrier.TagOK(rules) {
-				cars = append(cars, carrier.StructTag)
+				// (also after a call that overrode the field's rule for that call only: the tag's message is the one reported)
+				cars = append(cars, carrier.StructTag, carrier.StructTagHist)
 			}
 			if !rc.structs {
 				cars = append(cars, carrier.Var, carrier.Map, carrier.SliceMap, carrier.Url)
